@@ -19,6 +19,10 @@ EncoderValid(r) ==
   THEN LET d == DecMany(r.re, 1, <<>>) IN d.ok /\ NormAll(d.v) = NormAll(r.v.x)
   ELSE LET d == Dec(r.re) IN d.ok /\ d.n = Len(r.re) /\ Norm(d.v) = Norm(r.v)
 
+\* the untyped value tree of a typed item denotes the same abstract value as its bytes
+\* (a message has no single-value tree: its sections are serialized as a sequence)
+TreeValid(r) == r.k = "message" \/ r.tv # "ok" \/ Norm(r.tree) = Norm(r.v)
+
 Judge(r) ==
     Check("C03_NoEncodeFailure", r.enc = "ok", r)
   + Check("C03_RoundTrip", r.enc # "ok" \/ r.rt = "ok", r)
@@ -27,7 +31,8 @@ Judge(r) ==
   + Check("C20_SliceEqReader", AllOk(r.rd), r)
   + Check("C20_Consumed", AllOk(r.cons), r)
   + Check("C20_Size", r.enc # "ok" \/ r.size = "ok", r)
-  + Check("C20_ValueTree", r.enc # "ok" \/ (r.tv = "ok" /\ r.lazy = "ok"), r)
+  + Check("C20_ValueTree", r.enc # "ok" \/ r.k = "message" \/ (r.tv = "ok" /\ r.lazy = "ok" /\ TreeValid(r)), r)
+  + Check("C20_ValueTreeBack", r.enc # "ok" \/ r.k = "message" \/ r.tvback = "ok", r)
 
 Init == l = 1 /\ nfail = 0
 Next == l <= Len(Rec) /\ l' = l + 1 /\ nfail' = nfail + Judge(Rec[l])
